@@ -352,7 +352,7 @@ LEMMAS = [Lemma("C20/lemma:shipped-string-patterns", string_lemmas, replayer="re
 VERIFIED_CALLEES = ("cls._validation_fn",)
 LEVEL = "other"
 TECHNIQUE = "contract-based deductive verification (VCs from the real AST, z3/cvc5; IEEE floats, mathematical ints) + bounded run-time contract checking"
-LEVEL_TEXT = "under construction"
+LEVEL_TEXT = 'Proved for restriction lists of any length, int (mathematical) and float (IEEE binary64) base, and/or, v: bool|int|float|str: validation_fn accepts exactly when v converts to the base type and the joined comparisons hold, raising only ValueError (this refuted the shipped code: OverflowError for huge ints; fixed); TypeCore.__new__ validates first, yields base(v), recast is the identity; string types accept iff the pattern matches, with the languages of NotEmptyStr / Email characterised; registered-type deserializer wraps the declared exceptions as ValueError; SecretStr prints the mask. Bounded only: round trips of the built-in registered types through serializer, argv and config files.'
 LEVEL_NOTE = "under construction"
 EXPLANATION = "under construction"
 ASSUMPTIONS = []
